@@ -131,3 +131,6 @@ Definition run_chk_C04 (x : sx) : sx :=
       match dec_space xs with Some s => ofB (negb (ravel_ok s)) | None => A 0 end
   | _ => A 0
   end.
+
+(* DISPATCH: 401 => run_ravel *)
+(* DISPATCH: 402 => run_chk_C04 *)
